@@ -19,7 +19,7 @@ func TestC11(t *testing.T) {
 		mc := NewMachine("C11", sch, column.Options{})
 		defer mc.Close()
 		defer mc.Guard(t)
-		cfg := TxnCfg{Prop: "C11", MaxSteps: 8, Rollback: true, FailInsert: true, Deletes: true, Inserts: true, Merges: true, OwnUpdates: true, Direct: true,
+		cfg := TxnCfg{Prop: "C11", MaxSteps: 8, Peeks: true, Rollback: true, FailInsert: true, Deletes: true, Inserts: true, Merges: true, OwnUpdates: true, Direct: true,
 			NoStoreOnDel: KFActive("f11-store-and-delete-same-txn"), NoOpAfterLenMerge: KFActive("f15-difflen-merge-reorder")}
 		insertHeavy := cfg
 		insertHeavy.Deletes = false
